@@ -27,6 +27,9 @@ type fakeStream struct {
 	// lazyHeaders: the server sends its headers only after it has seen the client's half-close (a
 	// legitimate server): Header() on the underlying stream blocks until then
 	lazyHeaders bool
+	// failFirstSend: the first SendMsg on the underlying stream fails (the stream itself was created)
+	failFirstSend bool
+	sends         int
 }
 
 func (f *fakeStream) Header() (metadata.MD, error) {
@@ -54,9 +57,16 @@ func (f *fakeStream) Context() context.Context {
 	f.log = append(f.log, "Context")
 	return f.ctx
 }
+
+var errFirstSend = errors.New("fake: first send on the new stream fails")
+
 func (f *fakeStream) SendMsg(m interface{}) error {
 	yield("fs.SendMsg")
 	f.log = append(f.log, "SendMsg:"+m.(*reqMsg).Key)
+	f.sends++
+	if f.failFirstSend && f.sends == 1 {
+		return errFirstSend
+	}
 	return nil
 }
 func (f *fakeStream) RecvMsg(m interface{}) error {
@@ -77,6 +87,8 @@ type streamScenario struct {
 	PreCancel bool
 	// LazyHeaders: the underlying Header() blocks until the client has half-closed
 	LazyHeaders bool
+	// FirstSendFails: the stream is created, the first message cannot be sent on it
+	FirstSendFails bool
 }
 
 var errCreate = errors.New("fake: stream creation fails")
@@ -114,6 +126,10 @@ func streamScenarios() []streamScenario {
 	}
 	// operations of several goroutines on a stream that already exists
 	out = append(out, streamScenario{Name: "create=true sends=1 recvs=2 probe=CloseSend", CreateOK: true, Sends: 1, Recvs: 2, Probe: "CloseSend"})
+	// the stream is created but its first SendMsg fails: the error goes to the sender unchanged, the
+	// stream stays THE stream (receivers are delegated to it, no second creation)
+	out = append(out, streamScenario{Name: "create=true first-send-fails sends=3 recvs=1", CreateOK: true, Sends: 3, Recvs: 1, FirstSendFails: true},
+		streamScenario{Name: "create=true first-send-fails sends=1 recvs=0 probe=Header", CreateOK: true, Sends: 1, Probe: "Header", FirstSendFails: true})
 	// the server answers only after the client's half-close: a Header() call parked since before the
 	// creation must not keep the other operations from reaching the stream
 	out = append(out, streamScenario{Name: "create=true sends=3 recvs=0 lazy-headers probe=Header", CreateOK: true, Sends: 3, Probe: "Header", LazyHeaders: true},
@@ -171,7 +187,7 @@ func streamBody(sc streamScenario) func(s *vsched.Sched) *vsched.ExecOutcome {
 			if r.createdAt > 1 {
 				r.violate("C12.S2", "second underlying stream created after a success", fmt.Sprintf("streamer succeeded %d times", r.createdAt))
 			}
-			r.fs = &fakeStream{ctx: c, lazyHeaders: sc.LazyHeaders}
+			r.fs = &fakeStream{ctx: c, lazyHeaders: sc.LazyHeaders, failFirstSend: sc.FirstSendFails}
 			return r.fs, nil
 		}
 		if sc.PreCancel {
@@ -317,8 +333,11 @@ func streamBody(sc streamScenario) func(s *vsched.Sched) *vsched.ExecOutcome {
 			if strings.Join(got, ",") != strings.Join(want, ",") {
 				r.violate("C12.S5", "sends do not reach the underlying stream unchanged and in order", fmt.Sprintf("got %v want %v", got, want))
 			}
-			if !sc.FailOnce && sendRes[0] != "<nil>" {
+			if !sc.FailOnce && !sc.FirstSendFails && sendRes[0] != "<nil>" {
 				r.violate("C12.S5", "SendMsg result altered", sendRes[0])
+			}
+			if sc.FirstSendFails && sendRes[0] != errFirstSend.Error() {
+				r.violate("C12.S5", "error of the first send on the created stream not returned unchanged", sendRes[0])
 			}
 			if sc.FailOnce && (sendRes[0] != errCreate.Error() || sendRes[1] != "<nil>") {
 				r.violate("C12.S5", "SendMsg results altered (failed first creation, successful retry)", fmt.Sprint(sendRes))
